@@ -403,6 +403,11 @@ def run(ctx):
         core.run_sharded(ctx, __name__, 'shard_vacuity', n, (1,))
         ctx.exhaustive['small-grammar'] = True
         ctx.exhaustive['vacuity-table'] = True
+        with ctx.timed('atheris'):
+            from hplverif import fuzz
+
+            fuzz.tape_campaigns(ctx, 'C14', 8, 60000)
+
 
 
 def extra_evidence(ctx):
